@@ -34,6 +34,11 @@ def last_match_event(events, start, end):
 
 
 def one(ctx, i, rep=None):
+    with ctx.time_limit(30):
+        _one(ctx, i, rep)
+
+
+def _one(ctx, i, rep=None):
     from textx import metamodel_from_str, TextXError
     from tv.ggen import G
     global ML, PS
